@@ -100,4 +100,18 @@ theorem reject_no_resync [HeadParser] (lvl : Int) (app : App) (s : St) (st : Nat
   · unfold idleStep; rw [hs]; simp only [hd]
   · unfold errorReply; split <;> rfl
 
+/-- a head the head parser refuses: error reply (or close without reply), read buffer dropped,
+    never `init` again -/
+theorem refuse_no_resync [P : HeadParser] (lvl : Int) (app : App) (s : St) (x : Option Nat) (hs : s.state = .init)
+    (wf : FlagsWF s) (hp : P.head s.buf = .refuse x) :
+    idleStep lvl app s = some (refuseWith s x) ∧ (refuseWith s x).buf = [] ∧
+    (∀ st, x = some st → NoReparse (refuseWith s x)) ∧ (x = none → (refuseWith s x).state = .closed) := by
+  refine ⟨?_, ?_, ?_, ?_⟩
+  · unfold idleStep; rw [hs]; simp only [hp]
+  · cases x with
+    | none => rfl
+    | some st => show (errorReply s st).buf = []; unfold errorReply; split <;> rfl
+  · intro st hx; subst hx; exact errorReply_props s st wf
+  · intro hx; subst hx; rfl
+
 end Mhd.Framing
